@@ -12,7 +12,7 @@
 From SF Require Import Base.Prelude Gen.Generated Unsized.Types Unsized.Parse Unsized.Machine Unsized.Ops.
 From SF Require Import Unsized.Proofs.EncodeParse Unsized.Proofs.Mem Unsized.Proofs.Notify Unsized.Proofs.Flat.
 From SF Require Import Unsized.Proofs.Layout Unsized.Proofs.Path Unsized.Proofs.Resize Unsized.Proofs.GenOps Unsized.Proofs.History.
-From SF Require Import Unsized.Proofs.History2 Unsized.Proofs.ExecTie2 Unsized.Proofs.History4.
+From SF Require Import Unsized.Proofs.History2 Unsized.Proofs.ExecTie2 Unsized.Proofs.History4 Unsized.Proofs.InitFail.
 
 (* histories of the full operation set with failures in them: the machine reports the owned model's outcome of every step
    (success, or the error code) and every reachable state represents the owned model's value *)
@@ -115,6 +115,19 @@ Theorem C06_realloc_refusal_precedes_writes :
 Proof.
   intros s n Hg Hr. unfold realloc. destruct (m_len s <? n) eqn:E; [|zb; lia]. rewrite Hr, Z.eqb_refl. reflexivity.
 Qed.
+
+(* D16 (known finding), machine-checked: WITHOUT the restriction to initializers that cannot fail the clean-failure
+   statement is false of the faithful model - a failing element initializer runs after the container was grown and its
+   header rewritten, the call returns the error and the modified bytes stay.  The theorems above therefore quantify over
+   the default initializer only; the witness (the d16_ definitions of InitFail.v) is the history the registered check replays on the
+   implementation and reports as KNOWN-FINDING. *)
+Theorem C06_failing_initializer_refuted :
+  ~ (forall t v s top ps idx kind keys s' top' c,
+       wf t v = true -> ztake (m_len s) (m_mem s) = encode t v ->
+       get_ptr true t (m_mem s) 0 (m_len s) = Ok (top, m_len s) ->
+       ulist_insert t s top ps idx kind keys = Ok (s', top', [-1; c]) ->
+       ztake (m_len s') (m_mem s') = encode t v).
+Proof. exact insert_failure_clean_refuted. Qed.
 
 Example C06_nonvacuous :
   let ts := [TList (FAny 1) 1; TList (FAny 1) 4] in
